@@ -13,6 +13,17 @@ macro_rules! inst1 {
             $f::<$l>();
         }
     };
+    // with the Unicode table look-ups replaced by nondeterministic stubs (util::stubs)
+    ($name:ident, $f:ident, $l:expr, $u:expr, stubbed) => {
+        #[kani::proof]
+        #[kani::unwind($u)]
+        #[kani::stub(core::unicode::unicode_data::alphabetic::lookup, crate::util::stubs::any_bool_for_char)]
+        #[kani::stub(core::unicode::unicode_data::n::lookup, crate::util::stubs::any_bool_for_char)]
+        #[kani::stub(unicode_script::tables::tables_impl::get_script, crate::util::stubs::any_script)]
+        fn $name() {
+            $f::<$l>();
+        }
+    };
 }
 
 // ------------------------------------------------------------------ whitespace lexers: kind == what the text says
@@ -60,7 +71,7 @@ inst1!(c02_newlines_shape_l5, newlines_shape, 5, 8);
 
 // ------------------------------------------------------------------ words contain no whitespace
 fn word_shape<const L: usize>() {
-    let src: [char; L] = any_chars_d::<L>();
+    let src: [char; L] = any_chars::<L>();
     if let Some(ft) = hk::lex_word(&src) {
         assert!(matches!(ft.token, TokenKind::Word(None)), "lex_word yields a word without metadata");
         let mut i = 0;
@@ -69,20 +80,15 @@ fn word_shape<const L: usize>() {
             assert!(Punctuation::from_char(src[i]).is_none(), "a word contains no punctuation mark");
             i += 1;
         }
-        // maximal: the next char (if any) is not a word char in isolation
-        if ft.next_index < L {
-            let next = [src[ft.next_index]];
-            let alone = hk::lex_word(&next);
-            assert!(alone.is_none(), "a word extends over every following word character");
-        }
+        // (maximality is not asserted: with the table look-ups stubbed, two calls may classify the same char differently)
         kani::cover!(ft.next_index == L, "whole text is one word");
         core::mem::forget(ft);
     }
 }
-// HV: {"name":"c02_word_shape_l2","prop":"C02","kernel":"lex_word","bound":"every text of 2 chars from domain D (ASCII + 9 non-ASCII representatives)","fns":["harper_core::lexing::lex_word","harper_core::char_ext::CharExt::is_english_lingual"],"cost":4}
-inst1!(c02_word_shape_l2, word_shape, 2, 8);
-// HV: {"name":"c02_word_shape_l3","prop":"C02","tier":"thorough","kernel":"lex_word","bound":"every text of 3 chars from domain D","fns":["harper_core::lexing::lex_word","harper_core::char_ext::CharExt::is_english_lingual"],"cost":7}
-inst1!(c02_word_shape_l3, word_shape, 3, 9);
+// HV: {"name": "c02_word_shape_l2", "prop": "C02", "kernel": "lex_word", "bound": "every text of 2 chars (any Unicode scalar)", "fns": ["harper_core::lexing::lex_word", "harper_core::char_ext::CharExt::is_english_lingual"], "cost": 4, "stubbing": true, "stubs": ["core::unicode::unicode_data::{alphabetic,n}::lookup -> arbitrary bool", "unicode_script::get_script -> arbitrary of {Latin, non-Latin, unknown}"]}
+inst1!(c02_word_shape_l2, word_shape, 2, 26, stubbed);
+// HV: {"name": "c02_word_shape_l3", "prop": "C02", "tier": "thorough", "kernel": "lex_word", "bound": "every text of 3 chars (any Unicode scalar)", "fns": ["harper_core::lexing::lex_word", "harper_core::char_ext::CharExt::is_english_lingual"], "cost": 7, "stubbing": true, "stubs": ["core::unicode::unicode_data::{alphabetic,n}::lookup -> arbitrary bool", "unicode_script::get_script -> arbitrary of {Latin, non-Latin, unknown}"]}
+inst1!(c02_word_shape_l3, word_shape, 3, 26, stubbed);
 
 fn plural_digit_shape<const L: usize>() {
     let src: [char; L] = any_chars::<L>();
@@ -188,7 +194,7 @@ fn hex_val(c: char) -> u64 {
     }
 }
 fn hex_shape<const L: usize>() {
-    let src: [char; L] = any_chars_d::<L>();
+    let src: [char; L] = any_chars::<L>();
     if let Some(ft) = hk::lex_hex_number(&src) {
         let n = ft.next_index;
         assert!(n >= 3 && n <= L);
@@ -211,23 +217,25 @@ fn hex_shape<const L: usize>() {
         kani::cover!(n == L, "hex number covering the whole text");
     }
 }
-// HV: {"name":"c02_hex_shape_l3","prop":"C02","kernel":"lex_hex_number","bound":"every text of 3 chars from domain D","fns":["harper_core::lexing::lex_hex_number"]}
-inst1!(c02_hex_shape_l3, hex_shape, 3, 8);
-// HV: {"name":"c02_hex_shape_l4","prop":"C02","kernel":"lex_hex_number","bound":"every text of 4 chars from domain D","fns":["harper_core::lexing::lex_hex_number"],"cost":4}
-inst1!(c02_hex_shape_l4, hex_shape, 4, 9);
-// HV: {"name":"c02_hex_shape_l6","prop":"C02","tier":"thorough","kernel":"lex_hex_number","bound":"every text of 6 chars from domain D","fns":["harper_core::lexing::lex_hex_number"],"cost":8}
-inst1!(c02_hex_shape_l6, hex_shape, 6, 11);
+// HV: {"name": "c02_hex_shape_l3", "prop": "C02", "kernel": "lex_hex_number", "bound": "every text of 3 chars (any Unicode scalar)", "fns": ["harper_core::lexing::lex_hex_number"], "stubbing": true, "stubs": ["core::unicode::unicode_data::{alphabetic,n}::lookup -> arbitrary bool", "unicode_script::get_script -> arbitrary of {Latin, non-Latin, unknown}"]}
+inst1!(c02_hex_shape_l3, hex_shape, 3, 8, stubbed);
+// HV: {"name": "c02_hex_shape_l4", "prop": "C02", "kernel": "lex_hex_number", "bound": "every text of 4 chars (any Unicode scalar)", "fns": ["harper_core::lexing::lex_hex_number"], "cost": 4, "stubbing": true, "stubs": ["core::unicode::unicode_data::{alphabetic,n}::lookup -> arbitrary bool", "unicode_script::get_script -> arbitrary of {Latin, non-Latin, unknown}"]}
+inst1!(c02_hex_shape_l4, hex_shape, 4, 9, stubbed);
+// HV: {"name": "c02_hex_shape_l6", "prop": "C02", "tier": "thorough", "kernel": "lex_hex_number", "bound": "every text of 6 chars (any Unicode scalar)", "fns": ["harper_core::lexing::lex_hex_number"], "cost": 8, "stubbing": true, "stubs": ["core::unicode::unicode_data::{alphabetic,n}::lookup -> arbitrary bool", "unicode_script::get_script -> arbitrary of {Latin, non-Latin, unknown}"]}
+inst1!(c02_hex_shape_l6, hex_shape, 6, 11, stubbed);
 
 // HV: {"name":"c02_decade_shape","prop":"C02","kernel":"lex_long_decade","bound":"every text of 6 chars (any Unicode scalar)","fns":["harper_core::lexing::lex_long_decade"]}
 #[kani::proof]
-#[kani::unwind(4)]
+#[kani::unwind(8)]
 fn c02_decade_shape() {
     let src: [char; 6] = any_chars::<6>();
+    // exactly [12]dd0s, and the 's' is not the start of a longer word ("1980st" is number + suffix)
     let want = (src[0] == '1' || src[0] == '2')
         && src[1].is_ascii_digit()
         && src[2].is_ascii_digit()
         && src[3] == '0'
-        && src[4] == 's';
+        && src[4] == 's'
+        && !src[5].is_ascii_alphanumeric();
     match hk::lex_long_decade(&src) {
         Some(ft) => {
             assert!(want && ft.next_index == 5 && matches!(ft.token, TokenKind::Decade));
